@@ -134,10 +134,16 @@ ICUBridgeCollationCompareFunctorImpl::~ICUBridgeCollationCompareFunctorImpl()
 
     delete m_defaultCollator;
 
-    for_each(
+    // (empty() does not create the head node of a container that has
+    // never been used, which begin() would; clean-up code must not
+    // allocate memory.)
+    if (m_collatorCache.empty() == false)
+    {
+        for_each(
             m_collatorCache.begin(),
             m_collatorCache.end(),
             CollationCacheStruct::CollatorDeleteFunctor(getMemoryManager()));
+    }
 }
 
 
